@@ -4,7 +4,7 @@ from vf import bl
 PROP = "C05"
 LEVEL = "exploration"
 ENGINE = "BL"
-N = {"quick": 2500, "thorough": 160000}
+N = {"quick": 1600, "thorough": 120000}
 TIME = {"quick": 40, "thorough": 420}
 RULE = ("Same generated broker histories as C01 (spot-like and margined contracts incl. user-defined, spreads, fees, rates). "
         "Post-conditions are evaluated INSIDE hooks on Broker.net_liquidation_value, marking_to_market (all / one), "
@@ -19,6 +19,7 @@ ASSUMPTIONS = [
 REQUIRED = ["C05:margin@valuation", "C05:margin@trade", "C05:margin@mark-all", "C05:margin@mark-one",
             "C05:decomposition@valuation", "C05:weight@weights", "C05:context-consistent", "C05:no-margin-for-spot@valuation",
             "C05:margin-vs-ledger"]
+REQUIRED_CATS = ["episode:chain", "episode:plain"]
 REQUIRED_HITS = ["Broker.transact", "Broker.marking_to_market", "Broker.net_liquidation_value", "Broker.context",
                  "Broker.holdings_weights"]
 TECHNIQUE = "runtime monitoring: invariant post-conditions inside hooks on the broker's valuation/marking/trading entry points"
@@ -29,6 +30,41 @@ LEVEL_NOTE = ("Trusted: the exchange's books as price source inside hooks (decid
               "mutation audit: margin at execution price, missing abs for shorts, sweep sign, weights on mid, partial sweep are caught).")
 
 
+def episode(ctx, chain):
+    """The same post-conditions while a real TradingEnv episode runs: the hooks
+    fire on every valuation / marking / trade the environment itself performs
+    (reward computation, feature-free state, rebalancing)."""
+    import numpy as np
+    from tradingenv.contracts import FutureChain
+    from vf import ep, epl
+    env, sink, cfg = epl.build(ctx, chain=chain, discrete=False)
+    cs = []
+    for c in cfg["cs"]:
+        cs.extend(c.contracts if isinstance(c, FutureChain) else [c])
+    rng = ctx.rng
+    short_margined = False
+    with bl.MarginMonitor(ctx, cs, active=True):
+        env.reset()
+        done = ep.done_at_reset(env, sink)
+        k = 0
+        while not done and k < len(cfg["grid"]) + 2:
+            if chain:
+                a = np.array([rng.choice([0, rng.uniform(-1.5, 1.5)]), rng.uniform(-0.3, 0.5)])
+            else:
+                a = np.array([rng.choice([0.0, rng.uniform(-0.4, 0.5)]) for _ in cfg["cs"]])
+            o, r, done, info = env.step(a)
+            k += 1
+            hq = env.broker.holdings_quantity
+            if any(q < 0 and c.margin_requirement != 0 for c, q in hq.items()):
+                short_margined = True
+    ctx.cat("episode", "episode:chain" if chain else "episode:plain")
+    ctx.nontrivial = short_margined
+    ctx.sample = {"episode": True, "chain": chain, "steps": k, "contracts": [getattr(c, "symbol", "?") for c in cfg["cs"]],
+                  "latency": cfg["L"], "delay": cfg["d"]}
+
+
 def case(ctx, i, tier):
+    if i % 8 == 7:
+        return episode(ctx, chain=(i % 16 == 15))
     bl.history(ctx, {"C05"})
     ctx.nontrivial = ctx.notes.get("nt05", False)
